@@ -219,6 +219,10 @@ theorem Xfer.delHold (h : Xfer sh' sh u pc a) {d : Bool} {k : K} {e : EId}
   · obtain ⟨op, r, ha⟩ := h1.done
     exact Or.inr (h.unl d k e (hmem op r ha) h1)
 
+theorem Xfer.rangeHold (h : Xfer sh' sh u pc a) {todo : List (K × EId)} {acc : List (K × V)}
+    (hp : RangeHold sh todo acc) : RangeHold sh' todo acc :=
+  ⟨hp.1, fun q hq => h.holdRead (hp.2 q hq)⟩
+
 theorem Xfer.dirtyMap_of_own (h : Xfer sh' sh u pc a) (ho : Own sh u) : dirtyMap sh' = dirtyMap sh :=
   dirtyMap_congr (h.own ho).2.1
 
@@ -321,6 +325,12 @@ theorem Xfer.transfer (h : Xfer sh' sh u pc a) (hT : T sh u pc a) : T sh' u pc a
   | rangeStore dm =>
     simp only [T] at hT ⊢
     exact ⟨hT.1, h.promoting hT.2.1, by rw [h.dirtyMap_of_own hT.2.1.own]; exact hT.2.2⟩
+  | rangePick todo acc =>
+    simp only [T] at hT ⊢
+    exact ⟨hT.1, fun ho => hT.2.1 (h.own_iff.mp ho), h.rangeHold hT.2.2⟩
+  | rangeLoad todo acc k' e' =>
+    simp only [T] at hT ⊢
+    exact ⟨hT.1, fun ho => hT.2.1 (h.own_iff.mp ho), h.rangeHold hT.2.2⟩
   | _ => simp only [T, h.own_iff, h.readM] at hT ⊢ <;> exact hT
 
 end XferLemmas
